@@ -259,6 +259,16 @@ fn log_entry(call: &Value) {
         "v6" => req.add_header("Forwarded".to_string(), "for=\"[2001:db8::1]:4711\";proto=https".to_string(), false),
         "empty" => req.add_header("X-Forwarded-For".to_string(), "".to_string(), false),
         "obfuscated" => req.add_header("Forwarded".to_string(), "for=_hidden, for=unknown".to_string(), false),
+        "lone_quote" => req.add_header("Forwarded".to_string(), "for=\"".to_string(), false),
+        "empty_quotes" => req.add_header("Forwarded".to_string(), "for=\"\"".to_string(), false),
+        "quote_proto" => req.add_header("Forwarded".to_string(), "for=\";proto=https".to_string(), false),
+        "bracket_only" => req.add_header("Forwarded".to_string(), "for=\"[\", for=[, for=]".to_string(), false),
+        "port_only" => req.add_header("Forwarded".to_string(), "for=:80, for=\":\"".to_string(), false),
+        "eq_only" => req.add_header("Forwarded".to_string(), "=;==;for==;for".to_string(), false),
+        "port_overflow" => req.add_header("Forwarded".to_string(), "for=1.2.3.4:99999999999, for=\"[::1]:-1\"".to_string(), false),
+        "empty_brackets" => req.add_header("Forwarded".to_string(), "for=\"[]:80\", for=[]".to_string(), false),
+        "xff_ports" => req.add_header("X-Forwarded-For".to_string(), "1.2.3.4:80, [::1]:80, [::1, 1.2.3.4:, :".to_string(), false),
+        "for_upper" => req.add_header("FORWARDED".to_string(), "FOR=\"1.2.3.4\";By=x".to_string(), false),
         _ => {}
     }
     let misc = cls(call, "misc");
